@@ -8,7 +8,7 @@ import z3
 from .. import reportlib as rl
 from ..checklib import main
 from ..engine import Str
-from ..native import unhex
+from ..native import hexs, unhex
 
 HEADINGS = {'High': '## High Risk\n', 'Medium': '## Medium Risk\n', 'Low': '## Low Risk\n'}
 
@@ -214,9 +214,60 @@ def full_report(chk):
             if good and pos == len(text):
                 chk.ok()
             else:
+                # confirm on the compiled code before reporting: the file written for these findings against the parts its own generators return
+                import os
+                sv = z3.Solver(); sv.add(*base); sv.add(*r.pc)
+                if sv.check() != z3.sat:
+                    chk.ok(); continue
+                mm = sv.model()
+                sp = [fs[c].spec(mm) for c in ('vul', 'opt', 'qa')]
+                d = os.path.join(chk.native.dir, 'fullcat%d' % chk.native.n); chk.native.n += 1
+                os.makedirs(d)
+                nat = chk.native.run([['fullreport', sp[0], sp[1], sp[2], d], ['report', 'vul', sp[0]], ['report', 'opt', sp[1]], ['report', 'qa', sp[2]]])
+                if all(x[0] == 'OK' for x in nat) and unhex(nat[0][1]) == ''.join(unhex(x[1]) + '\n\n' for x, on in zip(nat[1:], mask) if on):
+                    chk.broken('generate_report with categories %r: the engine finds a wrong composition, the compiled code writes exactly the expected parts' % (mask3,))
                 chk.violation('full:report:category-parts', 'generate_report with categories (vul, opt, qa) = %r (True: findings, False: no entry, empty: only file entries without lines) does not consist of exactly the parts of the categories that have findings' % (mask3,),
-                              {'job': 'fullreport', 'categories': [str(x) for x in mask3]})
+                              {'job': 'fullreport', 'categories': [str(x) for x in mask3], 'specs': sp, 'observed': unhex(nat[0][1])[:400] if nat[0][0] == 'OK' else nat[0]})
+    native_full_sequences(chk)
     chk.sample({'generate_report': 'all 27 combinations of absent / with findings / only empty line sets per category, one write to solstat_report.md'})
+
+
+def native_full_sequences(chk):
+    """the compiled generate_report, several reports written one after the other into the SAME directory (long then short, short then
+    long, equal): every file left behind must be exactly the parts of the categories that have findings, each part being what the
+    category's own generator returns -- nothing of an earlier report may remain"""
+    import os
+    specs = {
+        'long': ('floating_pragma|%s|3,9;unsafe_erc20_operation|%s|4;unprotected_selfdestruct|%s|7' % (hexs('A.sol'), hexs('B.sol'), hexs('A.sol')),
+                 ';'.join('%s|%s|%s' % (n, hexs('File%d.sol' % i), ','.join(str(k) for k in range(1, 12))) for i, (_, n) in enumerate(rl.OPT)),
+                 'constructor_order|%s|5;private_vars_leading_underscore|%s|6,7' % (hexs('A.sol'), hexs('B.sol'))),
+        'short': ('floating_pragma|%s|1' % hexs('A.sol'), '', ''),
+        'qa only': ('', '', 'constructor_order|%s|5' % hexs('A.sol')),
+        'nothing': ('', '', ''),
+        'only empty line sets': ('floating_pragma|%s|' % hexs('A.sol'), 'sstore|%s|' % hexs('A.sol'), ''),
+    }
+    has = lambda sp: any(item.split('|')[2] for item in sp.split(';') if item)
+    orders = [('long', 'short'), ('short', 'long'), ('long', 'qa only'), ('long', 'nothing'), ('short', 'short'), ('long', 'only empty line sets', 'long')]
+    for order in orders:
+        d = os.path.join(chk.native.dir, 'fullseq%d' % chk.native.n); chk.native.n += 1
+        os.makedirs(d)
+        for step, name in enumerate(order):
+            v, o, q = specs[name]
+            res = chk.native.run([['fullreport', v, o, q, d], ['report', 'vul', v], ['report', 'opt', o], ['report', 'qa', q]])
+            chk.states += 1
+            if any(r[0] != 'OK' for r in res):
+                chk.violation('full:sequence:panic', 'generate_report / a category generator fails on the findings %r: %r' % (name, [r for r in res if r[0] != 'OK'][:1]),
+                              {'job': 'fullreport sequence', 'order': order, 'step': step}); break
+            want = ''.join(unhex(r[1]) + '\n\n' for r, sp in zip(res[1:], (v, o, q)) if has(sp))
+            got = unhex(res[0][1])
+            if got != want:
+                k = next((i for i in range(min(len(got), len(want))) if got[i] != want[i]), min(len(got), len(want)))
+                chk.violation('full:sequence:stale-or-wrong-file', 'after writing the reports %r one after the other into the same directory, solstat_report.md (%d bytes) is not '
+                              'the report of the last findings (%d bytes): first difference at byte %d: %r' % (order[:step + 1], len(got), len(want), k, got[k:k + 60]),
+                              {'job': 'fullreport sequence', 'order': list(order[:step + 1]), 'specs': {n: specs[n] for n in order}})
+                break
+            chk.ok()
+    chk.sample({'generate_report natively': 'sequences of reports into one directory: %r' % (orders,)})
 
 
 class _Flat(Str):
